@@ -25,7 +25,7 @@ P = {
          "unresolved and are evaluated at read time), ${} parsing happens only under VarExp, expression objects are never written after construction, "
          "resolveEnv reports success only after a resolver succeeded (an unresolvable reference is an error, never an empty value), and the lookup "
          "order tree root -> Env last-to-first -> resolvers last-to-first is the one coded, a configuration that does not hold the name handing over "
-         "to the next one (the lookup ends only with the value found or with the environments used up), and a resolver that fails handing over to "
+         "to the next one (the lookup ends only with the value found or with the environments used up; a nil configuration given with Env is skipped and ends nothing), and a resolver that fails handing over to "
          "the next resolver whatever its error. Operator semantics, escapes and typed results are value-level "
          "and not decided.",
          TRUST,
@@ -233,14 +233,14 @@ P = {
          TRUST + "Third-party decoders are outside the tree.",
          "§3 C18"),
  "C19": (True,
-         "static def-use flow of option parameters + dominator/path rules on SSA (custom analyzer)",
+         "static def-use flow of option parameters + dominator/path rules on SSA + who-may-call rule on the VTA call graph (custom analyzer)",
          "Decides, for every function of packages flag and cfgutil on the current tree, that no ...ucfg.Option parameter is dropped on the way to "
          "NewFrom/Merge/Unpack or the collector's option field, that Collector.err is write-once and returned first, that FlagValue.Set feeds "
          "the collector on every path, and that the key=value loader treats empty values and bare keys as stated (an argument is ignored only when "
          "its raw value part is empty — never after the value was parsed, so null/[]/{} still override), and that the config a loader returns is "
          "made by NewFrom / New+Merge or the user's file loader, so that the flag's options apply to the value, and that Collector.Add merges "
          "only a non-nil config (an ignored argument yields none) and that an error a loader reports to the flag package is the one it hands to the "
-         "collector. These are necessary structural "
+         "collector, and that no observer of a flag value (String — which package flag calls itself —, Get, Config, Error) reaches Collector.Add on the call graph, so that only a failing argument can stop the collection. These are necessary structural "
          "clauses of C19 that hold for all argument sequences at once; equality with a sequence of merges (a value-level fact) is not decided.",
          TRUST + "Does not cover user-supplied FileLoader functions.",
          "§3 C19"),
